@@ -129,8 +129,8 @@ func judgeCall(before, after map[string]tEntry, name0, dirEff, prefix, suffix st
 	}
 	if e, ok := after[name]; !ok {
 		bad = append(bad, "not-created")
-	} else if e.dir == isFile {
-		bad = append(bad, "wrong-kind")
+	} else if e.dir == isFile && len(bad) == 0 {
+		bad = append(bad, "wrong-kind") // (a name that existed before is reported as not-fresh only)
 	}
 	if filepath.Dir(name) != absKey(dirEff) {
 		bad = append(bad, "not-direct-child")
